@@ -5,7 +5,7 @@
   OBLIGATIONS (checked by the harness: every name is a theorem of this file, axioms audited):
     operator_table_sound cmp_probe_agrees prec_probe_agrees function_table_sound
     nodetest_table_sound axis_table_sound pred_eval_sound pred_outcome_sound
-    substring_not_xpath ne_absent_not_xpath
+    substring_not_xpath ne_absent_not_xpath step_matches_eq_xp
 -/
 import Genshi.Model.Path
 import Genshi.Model.PathParse
@@ -13,6 +13,7 @@ import Genshi.Model.PathStrategy
 import Genshi.Model.PathRef
 import Genshi.Gen.Path
 import Genshi.Lemmas.PathEval
+import Genshi.Lemmas.PathXp
 namespace Genshi.Props.C05
 open Genshi Genshi.Path
 
@@ -158,6 +159,61 @@ example : (Expr.cmp .ge (.test (.localName true ['n'])) (.num (.dec false 2 0)))
     (.start ⟨[], ['a']⟩ [(⟨[], ['n']⟩, ['3'])]) [] [] = true := by decide
 example : nodeOk (.elem ⟨[], ['a']⟩ [(⟨[], ['n']⟩, ['3'])] []) := by
   refine ⟨by decide, ?_⟩; intro p hp; simp at hp; subst hp; decide
+
+/-! ## Location steps -/
+
+theorem chooses_single (s : Step) : chooseStrategy [s] = some .single := by
+  have : strategyOrder = [.single, .simple, .generic] := by decide
+  simp [chooseStrategy, this, Strategy.supports, singleSupports]
+
+theorem runTest_single' (steps : List Step) (ic : Bool) (ns : NsMap) (vs : Vars) (t : SState) (es : List Event) :
+    runTest [.single steps ic] ns vs [.s t] es = (runOne (sStep steps ic ns vs) t es).1 := by
+  induction es generalizing t with
+  | nil => rfl
+  | cons e es ih =>
+    simp only [runTest, multiStep, List.zip_cons_cons, List.zip_nil_right, List.map_cons, List.map_nil,
+      Matcher.step, List.foldl_cons, List.foldl_nil, Val.isNone, runOne]
+    rw [ih]
+    simp
+
+/-- **step_matches_eq_xp** (`select_eq_xp`, stages 1 and 3 for a single location step, at the
+    level of matches).  For every single step `axis::test[p1]…[pk]` on the child, descendant,
+    descendant-or-self or self axis — any number of predicates, positional ones included — and
+    every tree: the nodes at whose event the matcher `Path(text).test()` built by
+    `Path.__init__` reports a match are, in document order, exactly the node set XPath 1.0
+    assigns to the step with the outermost element as context node (`Ref.stepNodes`: the axis
+    nodes in document order, filtered by the node test, then predicate by predicate with the
+    survivors renumbered).  The proof goes through the counters of SingleStepStrategy
+    (`sfilter_eq_fpreds`: one counting pass = XPath's successive filtering) and
+    `pred_eval_sound` for every candidate.
+
+    Hypotheses: predicates in the typed fragment and clear of the pinned absent-attribute
+    comparison on the candidates (`CandOk`), hygienic names, bound prefixes, no namespace /
+    CDATA marker leaves in the tree.
+
+    Gap to the full `select_eq_xp` for single steps: the passage from the matched nodes to the
+    events `Path.select` emits (outermost matches with their subtrees) is tied by the
+    correspondence check only; the attribute axis is covered on the implementation side by
+    `single_eq_generic` (C17) and the correspondence. -/
+theorem step_matches_eq_xp (s : Step) (ns : NsMap) (vs : Vars) (root : Node)
+    (hna : s.axis ≠ .attribute) (hcl : root.clean = true) (hwf : s.test.elemWf ns)
+    (htyped : ∀ p ∈ s.preds, p.typed ns vs = true)
+    (hcand : ∀ n ∈ Ref.axisNodes s.axis ⟨[], root⟩, CandOk s ns vs n) :
+    matched (runTest (pathTest [[s]] false).1 ns vs (pathTest [[s]] false).2 root.flatten) (eventLocs root [])
+      = Ref.stepNodes s ns (toXVars vs) ⟨[], root⟩ := by
+  have hs : sSteps [s] = [s] := by
+    have : (s.axis == Axis.attribute) = false := by simpa using hna
+    simp [sSteps, this]
+  simp only [pathTest, List.map_cons, List.map_nil, chooses_single, Option.getD_some, mkMatcher, hs]
+  rw [runTest_single']
+  exact single_matches s ns vs root hna hcl hwf htyped hcand
+
+-- non-vacuity: `b[2]` on <a><b/><b/></a> reports the second b, as XPath does
+example : (matched (runTest (pathTest [[⟨.child, .localName false ['b'], [.num (.dec false 2 0)]⟩]] false).1 [] []
+      (pathTest [[⟨.child, .localName false ['b'], [.num (.dec false 2 0)]⟩]] false).2
+      (Node.elem ⟨[], ['a']⟩ [] [Node.elem ⟨[], ['b']⟩ [] [], Node.elem ⟨[], ['b']⟩ [] []]).flatten)
+      (eventLocs (Node.elem ⟨[], ['a']⟩ [] [Node.elem ⟨[], ['b']⟩ [] [], Node.elem ⟨[], ['b']⟩ [] []]) [])).map
+        (·.loc) = [[1]] := by decide +kernel
 
 /-! ## Witnesses of the recorded findings: the full statement is false of the model there -/
 
